@@ -24,6 +24,27 @@ def run(ctx):
         inspected += 2
         if len(ofails) > 6:
             break
+    # ---- every registered kind once with a name inside a package that resolves attributes lazily (scipy/numpy style): even a
+    # getattr on an already imported module runs code, so inspection must not do that either
+    from .c11 import coherent_states
+    from .. import iogen
+
+    fx = iogen.facts()
+    for kind, st, members in coherent_states(ctx, fx):
+        for pos in ("header", "content"):
+            s2 = json.loads(json.dumps(st))
+            if pos == "header":
+                s2["__module__"], s2["__class__"] = "verif_canary_lazy", "probe_" + kind["loader"]
+            elif isinstance(s2.get("content"), dict) and "module_path" in s2["content"]:
+                s2["content"]["module_path"], s2["content"]["function"] = "verif_canary_lazy", "probe_content"
+            else:
+                continue
+            data = ioarch.make_zip(s2, members)
+            for msg in iocheck.c02_oracle_inspect(data):
+                ofails.append((msg, dict(kind="archive", schema=s2, members=sorted(members))))
+            inspected += 2
+        if len(ofails) > 6:
+            break
     for c, T, r, m in res["obs"]:
         # the part of load that precedes the trust decision: when the verdict is a refusal nothing may have happened
         if r["outcome"] == "untrusted" and (r["events"] or r["ledger"] or [x for x in r["new_modules"] if not x.startswith("encodings")]):
